@@ -173,6 +173,7 @@ Inductive stmt :=
 | SProgram
 | SProgramT (ticks : list nat) (tfile : string)   (* the program, with the -i timer thread dumping to tfile
                                                      after each of the given numbers of further events *)
+| SProgramTC (ticks : list nat) (tfile : string)  (* the same under cProfile (no -l): the dump switches the profiler off *)
 | SSeq (a b : stmt)
 | STry (body : stmt) (catch : kind -> bool) (handler : stmt)
 | SFinally (body fin : stmt).
@@ -186,6 +187,20 @@ Fixpoint prog_trace (tfile : string) (reg : Z -> bool) (st : pst) (stream : list
   | n :: t =>
       let st1 := prof_run reg st (firstn n stream) in
       let '(tr, st2) := prog_trace tfile reg st1 (skipn n stream) t in
+      (map FProg (firstn n stream) ++ FDump tfile st1 :: tr, st2)
+  end.
+
+(* cProfile (kernprof -i N without -l): the timer thread's prof.dump_stats() goes through
+   cProfile.Profile.create_stats(), which begins with self.disable(): from the first
+   periodic dump on NOTHING is recorded any more (the empty registered set), every later
+   dump - main's own included - writes the state that was reached at that moment *)
+Definition prog_trace_c (tfile : string) (reg : Z -> bool) (st : pst) (stream : list pev) (ticks : list nat)
+  : list eff * pst :=
+  match ticks with
+  | [] => (map FProg stream, prof_run reg st stream)
+  | n :: t =>
+      let st1 := prof_run reg st (firstn n stream) in
+      let '(tr, st2) := prog_trace tfile (fun _ => false) st1 (skipn n stream) t in
       (map FProg (firstn n stream) ++ FDump tfile st1 :: tr, st2)
   end.
 
@@ -216,6 +231,8 @@ Section Exec.
     | SProgram => (map FProg stream ++ raise_eff, program_outcome, prof_run reg st stream)
     | SProgramT ticks tfile =>
         let '(t, s') := prog_trace tfile reg st stream ticks in (t ++ raise_eff, program_outcome, s')
+    | SProgramTC ticks tfile =>
+        let '(t, s') := prog_trace_c tfile reg st stream ticks in (t ++ raise_eff, program_outcome, s')
     | SSeq a b =>
         let '(t1, o1, s1) := exec a st in
         match o1 with
@@ -264,6 +281,10 @@ Definition kern_main (ctx timed : bool) (outfile : string) : stmt := kern_main_g
 Definition kern_main_ticks (ticks : list nat) (ctx : bool) (outfile : string) : stmt :=
   kern_main_gen (SProgramT ticks outfile) ctx true outfile.
 
+(* with -i and without -l (cProfile, also -b): the periodic dump switches the profiler off *)
+Definition kern_main_ticks_c (ticks : list nat) (ctx : bool) (outfile : string) : stmt :=
+  kern_main_gen (SProgramTC ticks outfile) ctx true outfile.
+
 (* kernprof -l -v: after the dump and its closing line the report is printed from the
    same profiler object to the stream that was sys.stdout before the program ran; the
    profiler was switched off before the dump, so nothing is recorded in between *)
@@ -296,6 +317,25 @@ Definition kern_run (stream : list pev) (kd : kind) (reg : Z -> bool) (out : ost
 Definition kern_run_ticks (stream : list pev) (kd : kind) (reg : Z -> bool) (out : ostate)
            (ticks : list nat) (ctx : bool) (outfile : string) :=
   exec stream kd reg out (kern_main_ticks ticks ctx outfile) pst0.
+
+Definition kern_run_ticks_c (stream : list pev) (kd : kind) (reg : Z -> bool) (out : ostate)
+           (ticks : list nat) (ctx : bool) (outfile : string) :=
+  exec stream kd reg out (kern_main_ticks_c ticks ctx outfile) pst0.
+
+(* -b -i: create_stats() switches the C profiler off but leaves the wrappers' enable_count
+   alone; the next enable_by_count() that finds the count at 0 (a new outermost profiled
+   section) switches it on again.  `off` = switched off by a periodic dump. *)
+Definition wstep_off (reg : Z -> bool) (s : bool * (nat * pst)) (w : wev) : bool * (nat * pst) :=
+  match w with
+  | WEnable => (match fst (snd s) with O => false | S _ => fst s end, wstep reg (snd s) w)
+  | WDisable => (fst s, wstep reg (snd s) w)
+  | WE _ => if fst s then s else (false, wstep reg (snd s) w)
+  end.
+(* tick < 0: no periodic dump; otherwise one after that many events *)
+Definition wprof_run_cut (reg dec : Z -> bool) (tick : Z) (evs : list pev) : nat * pst :=
+  if tick <? 0 then wprof_run reg (0%nat, pst0) (wrap dec evs)
+  else snd (fold_left (wstep_off reg) (wrap dec (skipn (Z.to_nat tick) evs))
+                      (true, wprof_run reg (0%nat, pst0) (wrap dec (firstn (Z.to_nat tick) evs)))).
 
 (* exit status of the kernprof process.  A CPython artifact is part of it: runctx
    runs the program through exec() of a STRING, and the interpreter marks a
@@ -406,13 +446,14 @@ Definition kern_case_ok (trig : Z) (full ex : list pev) (m : Z) (kd : Z) (outc :
   let reg := reg_of regl in
   (* tick >= 0: run with -i, a periodic dump happened after that many events *)
   let '(tr, oc, _) := if tick <? 0 then kern_run ex k reg (ostate_of outc) ctx false "out"
+                      else if cprofile then kern_run_ticks_c ex k reg (ostate_of outc) [Z.to_nat tick] ctx "out"
                       else kern_run_ticks ex k reg (ostate_of outc) [Z.to_nat tick] ctx "out" in
   let snap := match last_dump tr with Some (_, s) => s | None => pst0 end in
   let cmp_dumps := if tick <? 0 then impl_dumps else impl_dumps + 1 in   (* + the periodic dump *)
   ((* model = implementation *)
    (if cprofile
     then calls_agree (if windowed   (* -b: cProfile inside the decorated functions' windows only *)
-                      then p_calls (snd (wprof_run reg (0%nat, pst0) (wrap (reg_of decl) ex)))
+                      then p_calls (snd (wprof_run_cut reg (reg_of decl) tick ex))
                       else p_calls snap) ex impl_calls
     else hits_agree (p_hits snap) ex impl_hits)
    && (kern_exit ctx k oc =? impl_rc) && (count_eff is_dump tr =? cmp_dumps),
